@@ -12,7 +12,7 @@ ee065f4:C02
 1046ee8:C02
 4eb59d7:C12,C02,C14
 12b19a6:C02,C12,C14
-9cbccb0:C11,C04
+9cbccb0:C11
 01a5b3a:C15
 1e71232:C03
 4ab7118:C04
